@@ -142,6 +142,8 @@ def expr_str(n, keep_casts=False):
     k = n.get('k')
     if k == 'ref':
         return n['n']
+    if k == 'raw':
+        return n['s']
     if k == 'mem':
         return '%s%s%s' % (_sub(n['b'], 20, keep_casts), '->' if n['arrow'] else '.', n['f'])
     if k == 'un':
